@@ -93,7 +93,7 @@ class Check(PropCheck):
             square = rng.random() < 0.5
             rows = [[gen.rust_display(M[a][b]) for b in (range(n) if square else range(a))] for a in range(n)]
             size = n
-            mut = rng.choice(['none', 'drop_row', 'dup_row', 'extra_row', 'extra_col', 'miss_col', 'perturb', 'diag', 'size', 'crlf', 'blank', 'junk'])
+            mut = rng.choice(['none', 'drop_row', 'dup_row', 'extra_row', 'extra_col', 'miss_col', 'perturb', 'perturb0', 'diag', 'size', 'crlf', 'blank', 'junk'])
             names2 = list(names); nl = '\n'
             if mut == 'drop_row' and n > 1:
                 i = rng.randrange(n); del rows[i]; del names2[i]
@@ -113,6 +113,13 @@ class Check(PropCheck):
                     rows[b][a] = '7.5'
                 else:
                     rows[a][b] = '7.5'
+            elif mut == 'perturb0' and n > 1 and square:
+                # asymmetry whose FIRST-read entry is zero (an unset cell also reads zero: the reader must not confuse the two)
+                a = rng.randrange(1, n); b = rng.randrange(0, a)
+                if rng.random() < 0.7:
+                    rows[b][a] = '0'
+                else:
+                    rows[a][b] = '0'
             elif mut == 'diag' and square:
                 i = rng.randrange(n); rows[i][i] = '1'
             elif mut == 'size':
@@ -179,10 +186,10 @@ class Check(PropCheck):
             mut = case.meta['mut']; square = case.meta['square']
             idx = 0 if square else 1
             l = il[idx]
-            must_reject = mut in ('drop_row', 'dup_row', 'extra_row', 'extra_col', 'miss_col', 'perturb', 'diag', 'size', 'junk')
+            must_reject = mut in ('drop_row', 'dup_row', 'extra_row', 'extra_col', 'miss_col', 'perturb', 'perturb0', 'diag', 'size', 'junk')
             if mut in ('perturb', 'diag') and not square:
                 must_reject = False
-            if mut in ('drop_row', 'perturb', 'junk') and case.meta['text'].count('\n') <= 2:
+            if mut in ('drop_row', 'perturb', 'perturb0', 'junk') and case.meta['text'].count('\n') <= 2:
                 must_reject = False
             if mut == 'miss_col' and not square and case.meta['text'].count('\n') <= 2:
                 must_reject = False
